@@ -386,6 +386,22 @@ def check(ctx: Ctx) -> None:
     r01_5(ctx, cg)
     from .c19 import r19_6
     r19_6(ctx, rule="R01.6")
+    # R01.7 \\u escapes are lexically valid: signed 16-bit range and fallback count (interval analysis shared with C10)
+    from .c10 import ALL, find_escape_loop, r10_1_2
+    for efi, eloop in find_escape_loop(ctx, cg):
+        r10_1_2(ctx, efi, eloop, ((0, 0x10FFFF),))
+    # R01.8 crash-freedom of the per-page border update: attribute blocks are tiled up to the page shape
+    from .tablecore import broadcast_expansion
+    broadcast_expansion(ctx, "R01.8")
+    # R01.9 positive widths: a zero relative width divides by zero or yields \\cellx0 (validator boundary shared with C19)
+    from .c19 import validators_for, _kind_ok, _weak_positive
+    vs = validators_for(pm, "TableAttributes", "col_rel_width")
+    okp = any(_kind_ok(pm, v, "positive", None)[0] for v in vs)
+    ctx.instance("R01.9", vs[0].where() if vs else pm.cls("TableAttributes").path + ":0", f"col_rel_width validated strictly positive (<= 0 rejected): {okp}")
+    if not okp:
+        weak = next((w for w in (_weak_positive(v) for v in vs) if w), None)
+        ctx.violation("R01.9", "TableAttributes.col_rel_width", "positivity " + (weak or "missing"), vs[0].where() if vs else pm.cls("TableAttributes").path + ":0",
+                      "col_rel_width is not validated as strictly positive" + (f" (guard `{weak}`)" if weak else "") + ": a zero width is accepted and rtf_encode divides by zero or emits \\cellx0")
     ctx.extra["functions_interpreted"] = len(it.calls_seen)
     ctx.extra["interpreter_gaps"] = sorted({f"{a}:{b}" for a, b, _ in it.gaps})[:20]
     if len(it.calls_seen) < 38:
